@@ -70,6 +70,9 @@ class LiteralText:  # a class whose *name* starts like the typing construct
     body: str
 
 
+Counter = t.NewType("Counter", int)  # the name is also an attribute of the typing module
+Text = t.TypeAliasType("Text", list[int])
+
 IntT = int
 ListInt = list[int]
 DictStrInt = dict[str, int]
